@@ -63,11 +63,18 @@ package stdlibspec
 //@ extern (time.Time).Compare(t, u)
 //@   pure
 //@   ensures (ns(t) < ns(u) ==> result == -1) && (ns(t) > ns(u) ==> result == 1) && (ns(t) == ns(u) ==> result == 0)
+// The location a time.Time prints in: utcLoc(t) says it is UTC. UTC() keeps the instant and
+// sets the location; Format with http.TimeFormat (which prints the literal "GMT", whatever the
+// location) yields an HTTP-date of the same instant, cut to whole seconds, only for a UTC value
+// with a four-digit year (0001..9999 = [0, 315537897600) seconds since year 1).
+//@ spec func utcLoc(t time.Time) bool
+//@ spec func httpYear(t time.Time) bool = ns(t) >= 0 && ns(t) < 315537897600000000000
 //@ extern (time.Time).UTC(t)
 //@   pure
-//@   ensures ns(result) == ns(t)
+//@   ensures ns(result) == ns(t) && utcLoc(result)
 //@ extern (time.Time).Format(t, layout)
 //@   pure
+//@   ensures layout == "Mon, 02 Jan 2006 15:04:05 GMT" && utcLoc(t) && httpYear(t) ==> validHTTPTime(result) && ns(httpTime(result)) <= ns(t) && ns(t) - ns(httpTime(result)) < 1000000000
 
 // The wall clock: ghost `now` is the latest reading; readings never go back.
 //@ ghost var now time.Time
